@@ -173,3 +173,29 @@ func PodsDomainAt(base, maxOrd, maxRep, nph int, withDeleting bool) *Domain {
 	}
 	return d
 }
+
+// StalePodsDomain: the pods domain seen through a pod cache that is behind - per ordinal the cached pod is still in
+// the API (0), is gone from it (1), or was replaced by a new incarnation of the same name (2).
+func StalePodsDomain(maxOrd, maxRep, nph int) *Domain {
+	base := PodsDomain(maxOrd, maxRep, nph, false)
+	nb := len(base.Dims)
+	dims := append([]int{}, base.Dims...)
+	for o := 0; o <= maxOrd; o++ {
+		dims = append(dims, 3)
+	}
+	d := &Domain{Name: "stale-" + base.Name, Dims: dims}
+	d.Make = func(ix []int) *Scenario {
+		sc := base.Make(ix[:nb])
+		sc.Dom = ix
+		for o := 0; o <= maxOrd; o++ {
+			switch ix[nb+o] {
+			case 1:
+				sc.ApiGone = append(sc.ApiGone, o)
+			case 2:
+				sc.ApiReborn = append(sc.ApiReborn, o)
+			}
+		}
+		return sc
+	}
+	return d
+}
